@@ -889,11 +889,18 @@ func zzC0102Build(cfg *zzC0102Cfg, dir string, rng *rand.Rand) (z *zzC0102Srv, e
 	}
 
 	cust4, cust6 := zzC0102CustAddrs(cfg)
+	globalSvc := zzC0102Services(cfg.Svc, zzC0102Svc, z.otherZone)
+	if cfg.Svc == "active" && rng.Intn(2) == 0 && len(globalSvc.IDs) > 0 && globalSvc.Schedule != nil &&
+		*globalSvc.Schedule == *schedule.EmptyWeekly() {
+		// The form a configuration file without a "schedule" key loads as:
+		// services that are never paused (seeded change C01-16).
+		globalSvc.Schedule = nil
+	}
 	z.fc = &filtering.Config{
 		BlockingIPv4:         cust4,
 		BlockingIPv6:         cust6,
 		ApplyClientFiltering: z.st.ApplyClientFiltering,
-		BlockedServices:      zzC0102Services(cfg.Svc, zzC0102Svc, z.otherZone),
+		BlockedServices:      globalSvc,
 		DataDir:              dir,
 		BlockingMode:         filtering.BlockingMode(cfg.Mode),
 		Filters:              blockLists,
